@@ -54,6 +54,7 @@ type c12run struct {
 	nTLV       int
 	degenerate bool // an out-of-range group element was put on the wire (v2 known-finding class)
 	knownSig   string
+	blind      bool
 	knownMsg   string
 	hits       int
 }
@@ -113,6 +114,9 @@ func (r *c12run) collect() {
 
 // judgeEvents applies the oracle to the SMP events the victim raised during one step.
 func (r *c12run) judgeEvents(ev []sim.SMPEv, allowSuccess bool, what string) {
+	if r.blind && r.sc.Equal {
+		allowSuccess = true
+	}
 	if r.sh.reject != "" && r.o.Violation == "" {
 		// the specification's verifier refuses this message: the victim must not carry the run forward
 		for _, e := range ev {
@@ -344,12 +348,22 @@ func runC12(sc *C12Script) *sim.Outcome {
 			if len(out) > 0 {
 				return o.Fail("C12/failed-start-sent", "StartAuthenticate failed (%v) and yet emitted %d message(s)", err, len(out))
 			}
-			if r.sh.state != "e1" {
-				// a run was in progress: the library may have given it up or kept it; the peer gives it up too
+			if r.sh.state != "e1" && st.F%2 == 0 {
+				// a run was in progress: the peer gives it up
 				r.sendSMP(ref.TLVSMPAbort, "", nil, 0)
 				r.prover, r.pRole = nil, 0
+				r.sh = shadow{state: "e1", reject: "no run in progress: the start failed"}
+			} else if r.sh.state == "e1" {
+				r.sh = shadow{state: "e1", reject: "no run in progress: the start failed"}
+			} else {
+				// ... or carries on with it: the failed restart sent nothing, so for the peer the first run is still on,
+				// and its next genuine message must at least not be fatal (the shadow keeps the first run)
+				o.Class("failed-restart-run-continues")
+				// (the failed call consumed some of the victim's randomness, which the shadow replays by position: from
+				// here on the shadow cannot tell what the victim's own values are, so with equal secrets a success is
+				// taken as legitimate; crashes and a stuck state machine are still judged)
+				r.blind = true
 			}
-			r.sh = shadow{state: "e1", reject: "no run in progress: the start failed"}
 			r.settle()
 			r.judgeEvents(m.A.SMP[nEv:], false, "a start that failed for lack of randomness")
 		case "vstart":
@@ -847,6 +861,12 @@ func TestProp_C12_UserCalls(t *testing.T) {
 		{"vstartf:4", "r2", "r4", "r1", "vanswer", "r3"},
 		{"vstartf:5", "r1", "vanswer", "r3"},
 		{"r1", "vstartf", "r1", "vanswer", "r3"},
+		// a restart that fails while a run is in progress; the peer's next genuine message of the first run arrives
+		{"vstart", "vstartf/1", "r2", "r4"},
+		{"vstart", "vstartf/1:1", "r2", "r4"},
+		{"vstart", "r2", "vstartf/1", "r4"},
+		{"r1", "vanswer", "vstartf/1", "r3"},
+		{"r1", "vanswer", "vstartf/1:2", "r3"},
 	}
 	idx := 0
 	for _, v := range []int{3, 2} {
@@ -865,6 +885,9 @@ func TestProp_C12_UserCalls(t *testing.T) {
 					if i := strings.Index(k, ":"); i > 0 {
 						st.K = k[:i]
 						st.X, _ = strconv.Atoi(k[i+1:])
+					}
+					if strings.HasSuffix(st.K, "/1") {
+						st.K, st.F = strings.TrimSuffix(st.K, "/1"), 1
 					}
 					sc.Steps = append(sc.Steps, st)
 				}
